@@ -134,6 +134,31 @@ def task_constructors(names, tier, seed):
     if not ok:
         path = write_replay(PID, {"key": "ctor/from_dict", "info": {"kind": "ctor-from-dict", "names": list(names), "decl": decl}, "inputs": {}})
         part.violation("ctor/from_dict", f"from_dict over {order} stores values in the wrong slots", path)
+    # from_dict on both kinds: covariance binds by name too; keys that are not a declared name are refused -
+    # an undeclared symbol, and a PAIR of declared symbols (a pair is not a name: the named covariance is diagonal)
+    with quiet():
+        dc = {s: float(i + 2) for i, s in enumerate(syms)}
+        c = Cc.from_dict(dc)
+    okc = all(float(c.data[order.index(s.name), order.index(s.name)]) == dc[s] for s in syms) and all(float(c.data[i, j]) == 0.0 for i in range(n) for j in range(n) if i != j)
+    part.record(Q("unsat" if okc else "sat", None, 0.0, ""), f"{key_base}/covariance.from_dict binds symbols by name")
+    if not okc:
+        path = write_replay(PID, {"key": "ctor/from_dict/covariance", "info": {"kind": "ctor-from-dict-cov", "names": list(names), "decl": decl}, "inputs": {}})
+        part.violation("ctor/from_dict/covariance", f"covariance.from_dict over {order} stores values in the wrong slots", path)
+    bad_keys = [("undeclared", sympy.Symbol(sorted(near)[0]))]
+    if n >= 2:
+        bad_keys += [("pair", (syms[0], syms[1])), ("pair-rev", (syms[-1], syms[0]))]
+    for lab, bk in bad_keys:
+        for cls, label in ((Vc, "vector"), (Cc, "covariance")):
+            try:
+                with quiet():
+                    cls.from_dict({bk: 2.5})
+                ok = False
+            except TypeError:
+                ok = True
+            part.record(Q("unsat" if ok else "sat", None, 0.0, ""), f"{key_base}/{label}.from_dict: {lab} key {bk} refused with TypeError")
+            if not ok:
+                path = write_replay(PID, {"key": f"ctor/from_dict-unknown/{label}/{lab}", "info": {"kind": "ctor-from-dict-unknown", "names": list(names), "decl": decl, "which": label, "key": [str(x) for x in bk] if isinstance(bk, tuple) else str(bk)}, "inputs": {}})
+                part.violation(f"ctor/from_dict-unknown/{label}/{lab}", f"named {label} over {order}: from_dict accepts the {lab} key {bk}", path)
     part.sample({"names": list(names), "sorted": order, "subsets": len(subsets), "near_misses": sorted(near)[:6]})
     return part.d
 
@@ -582,6 +607,12 @@ def run(tier, seed):
         rens = rens[:3] + rens[-2:]
     for label, rho, rrho in rens:
         tasks.append((task_twin, (base, rho, rrho, {}, tier, seed, label)))
+    # structure: a state that appears on no right-hand side moves from first to last in the sorted layout
+    p17 = CP.P17()
+    tasks.append((task_twin, (p17, {"a_load": "z_load"}, {}, {}, tier, seed, "unused-state:first>last")))
+    if tier != "quick":
+        tasks.append((task_twin, (p17, {"a_load": "z_load", "bias": "Bias", "pos": "_pos"}, {"compass": {"c": "zz", "d": "Aa"}}, {}, tier, seed, "structure:hard")))
+        tasks.append((task_cpp_twin, (p17, {"a_load": "z_load"}, {}, {}, tier, seed, "unused-state:first>last")))
     # C++ twins: fewer (a build each)
     for label, rho, rrho in (rens[1:2] + rens[-1:] if tier == "quick" else rens):
         tasks.append((task_cpp_twin, (base, rho, rrho, {}, tier, seed, label)))
@@ -621,6 +652,24 @@ def replay(path):
         from formak import common
 
         arglist = sorted([sympy.Symbol(n) for n in info["decl"]], key=lambda s: s.name)
+        if info["kind"] in ("ctor-from-dict-unknown", "ctor-from-dict-cov"):
+            cls = common.named_vector("V", arglist) if info.get("which") == "vector" else common.named_covariance("C", arglist)
+            if info["kind"] == "ctor-from-dict-cov":
+                order = sorted(info["decl"])
+                dc = {s_: float(i + 2) for i, s_ in enumerate([sympy.Symbol(n_) for n_ in info["decl"]])}
+                c = cls.from_dict(dc)
+                ok = all(float(c.data[order.index(s_.name), order.index(s_.name)]) == v_ for s_, v_ in dc.items())
+                print("not reproduced" if ok else "REPRODUCED")
+                return 0 if ok else 1
+            k = info["key"]
+            bk = tuple(sympy.Symbol(x) for x in k) if isinstance(k, list) else sympy.Symbol(k)
+            try:
+                cls.from_dict({bk: 2.5})
+            except TypeError:
+                print("not reproduced")
+                return 0
+            print("REPRODUCED: accepted", bk)
+            return 1
         if info["kind"] == "ctor-unknown":
             cls = common.named_vector("V", arglist) if info["which"] == "vector" else common.named_covariance("C", arglist)
             try:
@@ -641,7 +690,7 @@ def replay(path):
             return 1
         print("replay of from_dict: see check output")
         return 1
-    ps = {p.id: p for p in CP.all_fixed()}
+    ps = {p.id: p for p in CP.catalogue()}
     p = ps[info["program"]]
     rho, rrho, variant = info["rho"], info["rrho"], info["variant"]
     q = rename_program(p, rho, rrho)
